@@ -135,14 +135,15 @@ func (vc *FuncVC) symbolicRun() {
 			vc.entryVars[ct.Params[i]] = v
 		}
 	}
-	for _, fv := range fn.FreeVars {
+	fvNames := vc.eng.freeVarNames(fn, ct, vc.w)
+	for fi, fv := range fn.FreeVars {
 		v := st.freshV("fv_"+fv.Name(), fv.Type())
 		vc.assumeTypeWF(st, v, fv.Type())
 		if _, isPtr := fv.Type().Underlying().(*types.Pointer); isPtr {
 			st.assume(not(eq(v.T, "0"))) // captured variables are never nil cells
 		}
 		fr.env[fv] = v
-		vc.entryVars[fv.Name()] = v
+		vc.entryVars[fvNames[fi]] = v
 	}
 	vc.initBuiltinGhost(st)
 	st.ghost["inDefers"] = V{"false", SBool, nil}
@@ -488,4 +489,43 @@ func (e *Engine) funcNames() []string {
 		sort.Strings(e.sortedNames)
 	}
 	return e.sortedNames
+}
+
+// freeVarNames maps each captured variable of fn to its contract-local name: by (unique) type when the
+// contract declares `freevars (name Type, ...)`, otherwise the source name.
+func (e *Engine) freeVarNames(fn *ssa.Function, ct *Contract, w *World) []string {
+	names := make([]string, len(fn.FreeVars))
+	for i, fv := range fn.FreeVars {
+		names[i] = fv.Name()
+	}
+	if ct == nil || len(ct.FreeVars) == 0 {
+		return names
+	}
+	count := map[string]int{}
+	for _, fv := range fn.FreeVars {
+		count[w.typeStr(fv.Type())]++
+	}
+	for k, n := range ct.FreeVars {
+		t := ""
+		if k < len(ct.FreeVarTypes) {
+			t = strings.ReplaceAll(ct.FreeVarTypes[k], " ", "")
+		}
+		for i, fv := range fn.FreeVars {
+			ts := strings.ReplaceAll(w.typeStr(fv.Type()), " ", "")
+			ts = strings.ReplaceAll(ts, "interface{}", "any")
+			if t != "" && ts == strings.ReplaceAll(t, "interface{}", "any") && count[w.typeStr(fv.Type())] == 1 {
+				names[i] = n
+			}
+		}
+	}
+	return names
+}
+
+func (e *Engine) freeVarIndex(fn *ssa.Function, ct *Contract, w *World, name string) int {
+	for i, n := range e.freeVarNames(fn, ct, w) {
+		if n == name {
+			return i
+		}
+	}
+	return -1
 }
